@@ -133,15 +133,28 @@ func (db *MemDB) StoreExternal(ctx context.Context, duty core.Duty, signedSet co
 
 	output := make(map[core.PubKey][]core.ParSignedData)
 
+	// A failing entry (e.g. mismatching data for an already stored share) must not prevent the
+	// threshold trigger of other validators in the same set, so remember the first error,
+	// process the remaining entries and return it after the subscribers have been called.
+	var firstErr error
+
 	for pubkey, sig := range signedSet {
 		subcommIdx, err := core.SyncSubcommitteeIndex(duty.Type, sig.SignedData)
 		if err != nil {
-			return err
+			if firstErr == nil {
+				firstErr = err
+			}
+
+			continue
 		}
 
 		sigs, ok, err := db.store(ctx, key{Duty: duty, PubKey: pubkey, SubcommIdx: subcommIdx}, sig, exempt)
 		if err != nil {
-			return err
+			if firstErr == nil {
+				firstErr = err
+			}
+
+			continue
 		} else if !ok {
 			log.Debug(ctx, "Ignoring duplicate partial signature")
 
@@ -151,7 +164,11 @@ func (db *MemDB) StoreExternal(ctx context.Context, duty core.Duty, signedSet co
 		// Check if sufficient matching partial signed data has been received.
 		psigs, ok, err := getThresholdMatching(duty.Type, sigs, db.threshold)
 		if err != nil {
-			return err
+			if firstErr == nil {
+				firstErr = err
+			}
+
+			continue
 		} else if !ok {
 			continue
 		}
@@ -160,7 +177,7 @@ func (db *MemDB) StoreExternal(ctx context.Context, duty core.Duty, signedSet co
 	}
 
 	if len(output) == 0 {
-		return nil
+		return firstErr
 	}
 
 	// Call the threshSubs (which includes SigAgg component)
@@ -171,7 +188,7 @@ func (db *MemDB) StoreExternal(ctx context.Context, duty core.Duty, signedSet co
 		}
 	}
 
-	return nil
+	return firstErr
 }
 
 // Trim blocks until the context is closed, it deletes state for expired duties.
